@@ -1242,11 +1242,40 @@ class Mesh:
     def remove_duplicate_nodes(self):
         p, t = self._remove_duplicate_nodes(self.doflocs,
                                             self.t)
-        return replace(
+        m = replace(
             self,
             doflocs=p,
             t=t,
+            _boundaries=None,
         )
+        if self._boundaries is not None:
+            # the facets are renumbered: identify the named facets through
+            # their vertices, written in the new vertex numbering
+            old = np.sort(self._remove_duplicate_nodes(self.doflocs,
+                                                       self.facets)[1],
+                          axis=0)
+            new = np.sort(m.facets, axis=0)
+            _, ix = np.unique(np.hstack((new, old)), axis=1,
+                              return_inverse=True)
+            ix = ix.flatten()
+            lookup = np.zeros(ix.max() + 1, dtype=np.int32) - 1
+            lookup[ix[:new.shape[1]]] = np.arange(new.shape[1],
+                                                  dtype=np.int32)
+            new_ix = lookup[ix[new.shape[1]:]]
+
+            def renumber(ixs):
+                # merged facets are listed once
+                out, first = np.unique(new_ix[ixs], return_index=True)
+                if isinstance(ixs, OrientedBoundary):
+                    return OrientedBoundary(out, ixs.ori[first])
+                return out
+
+            m = replace(
+                m,
+                _boundaries={name: renumber(ixs)
+                             for name, ixs in self._boundaries.items()},
+            )
+        return m
 
     def element_finder(self, mapping=None):
         """Return a function handle from location to element index.
